@@ -173,6 +173,7 @@ func (x *Exec) pass() {
 	// receiver is non-nil for pointer-receiver methods under contract (stated assumption: callers
 	// reach the method through a non-nil receiver; a nil receiver panics before any property matters)
 	x.entry.live = st.live
+	x.yieldEntry(st)
 	// requires
 	if x.fc != nil {
 		var pres []Term
@@ -476,7 +477,10 @@ func (x *Exec) evalClauseDual(c *Clause, target *ssa.Function, cur, old *State, 
 	cf := x.clauseFn(c, pkgPathOf(target))
 	if cf == nil {
 		x.errorf("clause function for %q (line %d) not found", c.Text, c.Line)
-		return dualOf(Val{T: "false"})
+		// a clause that no longer type-checks against the code: its truth is unknown. As a
+		// hypothesis an unconstrained Boolean assumes nothing (and keeps the path satisfiable);
+		// as a goal it cannot be proved, so the obligation is reported as failed by name.
+		return dualOf(Val{T: x.havocConst("dropped_clause", "Bool")})
 	}
 	var args []dual
 	for _, p := range cf.Params {
